@@ -7,8 +7,10 @@ value: ["sum",tag,[[t..]..],[v..]]           general val.Sum over tys.Sum(rows)
        ["tuple",[v..]] ["some",[v..]] ["none",[t..]] ["left",[v..],[t..]] ["right",[t..],[v..]]
        ["int",w,n] ["float",x] ["string",s]
        ["array",t,[v..]] ["list",t,[v..]] ["sarray",t,[v..],name]
-       ["func",{"ins":[t..],"outs":"ins"|...}]  function value over a small generated DFG
-       ["extv",name,t,payload,[ext..]]           raw val.Extension
+       ["func",{"ins":[t..],"perm":[i..],"reqs":[ext..],"root":"dfg"|"defn","md":{..}}]
+                                                 function value over a small generated body (a DFG, optionally
+                                                 declaring runtime requirements, or a FuncDefn) permuting its inputs
+       ["extv",name,t,payload,[ext..]]           raw val.Extension (custom constant of a copyable type)
 """
 
 from __future__ import annotations
@@ -49,7 +51,7 @@ def type_of(v):
     if k == "sarray":
         return ["sarray", v[1]]
     if k == "func":
-        return ["func", v[1]["ins"], func_outs(v[1]), []]
+        return ["func", v[1]["ins"], func_outs(v[1]), list(v[1].get("reqs", []))]
     if k == "extv":
         return v[2]
     raise AssertionError(v)
@@ -121,15 +123,14 @@ def constable(t) -> bool:
         return True if k == "list" else ref_bound(t[1]) == "C"
     if k == "func":
         return func_constable(t)
-    return False
+    # anything else that is copyable can be inhabited by a custom constant (raw val.Extension)
+    return k in ("usize", "opaque", "ext") and ref_bound(t) == "C"
 
 
 def func_constable(t):
     # a function value is built as a DFG permuting/duplicating/dropping its inputs:
     # needs every output type to occur among the inputs, copyable if used != once
     ins, outs = t[1], t[2]
-    if t[3]:
-        return False
     return _func_perm(ins, outs) is not None
 
 
@@ -164,6 +165,9 @@ class VGen:
         """A value descriptor of type t (precondition: constable(t))."""
         r = self.r
         k = t[0]
+        if k in ("usize", "opaque", "ext") or (
+                k in ("int", "float", "string", "list") and r.random() < 0.04):
+            return self.extv(t)
         rows = rows_of(t)
         if rows is not None:
             tags = [i for i, row in enumerate(rows) if all(constable(x) for x in row)]
@@ -202,12 +206,21 @@ class VGen:
                 return ["list", t[1], vs]
             return ["sarray", t[1], vs, r.choice(["arr", "", "näme"])]
         if k == "func":
-            f = {"ins": t[1], "perm": _func_perm(t[1], t[2])}
+            f = {"ins": t[1], "perm": _func_perm(t[1], t[2]), "reqs": list(t[3]),
+                 "root": "defn" if not t[3] and r.random() < 0.3 else "dfg"}
             if r.random() < 0.5:
                 # node metadata inside the body of the function value
                 f["md"] = {"root": {"name": "body", "k": [1, None]}, "input": {"m": r.randint(0, 9)}}
             return ["func", f]
         raise AssertionError(t)
+
+    def extv(self, t):
+        """a custom constant (raw val.Extension) of the copyable type t with an arbitrary JSON payload"""
+        r = self.r
+        pay = r.choice([None, 0, -3, 2.5, "", "päy", [], [1, None, "x"], {}, {"a": None, "b": [1, {"c": False}]},
+                        True, {"v": {"v": None}}])
+        return ["extv", r.choice(["MyConst", "c", "Ünï", "ConstInt2"]), t, pay,
+                r.sample(["prelude", "verif.test", "x.y"], r.randint(0, 2))]
 
     def const_type(self, depth=2, allow_func=True):
         """A random constable, copyable type descriptor."""
@@ -237,7 +250,8 @@ class VGen:
             return ["sarray", self.const_type(d, allow_func)]
         ins = row(3)
         perm = [r.randrange(len(ins)) for _ in range(r.randint(0, 3))] if ins else []
-        return ["func", ins, [ins[i] for i in perm], []]
+        return ["func", ins, [ins[i] for i in perm],
+                r.sample(["prelude", "arithmetic.int", "verif.test", "x"], r.choice([0, 0, 1, 2]))]
 
 
 class VBuilder:
@@ -255,7 +269,16 @@ class VBuilder:
     def func_hugr(self, f):
         from hugr.build import Dfg
 
-        d = Dfg(*[self.tb.ty(t) for t in f["ins"]])
+        from hugr import ops
+        from hugr.build.dfg import DfBase, Function
+
+        tys_in = [self.tb.ty(t) for t in f["ins"]]
+        if f.get("root") == "defn":
+            d = Function("fv", tys_in)
+        elif f.get("reqs"):
+            d = DfBase(ops.DFG(tys_in, None, list(f["reqs"])))
+        else:
+            d = Dfg(*tys_in)
         ins = d.inputs()
         d.set_outputs(*[ins[i] for i in f["perm"]])
         md = f.get("md")
